@@ -33,7 +33,7 @@ def main():
                   'source_commits': [], 'add_only': True},
         'engines': [{'name': 'lean4-proof+correspondence', 'path': 'lean/ + harness/',
                      'serves_properties': [c['property_id'] for c in checks],
-                     'kind_free_text': 'Lean 4 theorems about hand-written executable models (lake build + #print axioms audit), tied to /repo by a differential correspondence run (real code in-process vs lean --run driver) by constants re-extracted from the source on every run and, for the integer / scheduling logic of C03 C06 C11 C12 C13 C17 C18, by Lean definitions re-translated from the source text on every run with theorems translated = model (DESIGN §12); failing-input search by direct oracles on a break'}],
+                     'kind_free_text': 'Lean 4 theorems about hand-written executable models (lake build + #print axioms audit), tied to /repo by a differential correspondence run (real code in-process vs lean --run driver) by constants re-extracted from the source on every run and, for the integer / decision / event-order skeleton of the anchored functions of every property (harness/tiespecs, ties.py), by Lean definitions re-translated from the source text on every run with theorems translated = model (DESIGN §12); failing-input search by direct oracles on a break'}],
         'checks': checks,
         'not_applicable': na,
         'notes': 'fix: commits in /repo and known findings are listed in known_findings.txt; see DESIGN.md §7.',
